@@ -4,4 +4,4 @@ From Coq Require Extraction ExtrOcamlBasic ExtrOcamlZBigInt.
 From Verif Require Import Lib.Bytes Model.VerifyInput Model.SignPlace.
 Extraction Language OCaml.
 Extraction "../ocaml/c02_model.ml" bz zb lib_verify_input lib_tx_verify unfixed_verify_loop
-  lib_verify_input_run lib_sign_input lib_sign_place lib_roundtrip_sigs c_sv c_mk run_scenario.
+  lib_verify_input_run lib_sign_input lib_sign_place lib_roundtrip_sigs c_sv c_mk run_scenario lib_thr_run.
